@@ -225,12 +225,29 @@ def toUnitlessScalar (value newUnit : PyVal α) : Except Err α :=
     | .ok conv => .ok (mag * conv.magnitude)
     | .error e => .error e
 
-/-- nested Python containers of scalars (list/tuple/object array, dict, str) -/
+/-- element-wise `to_unitless` of a flat list of scalars -/
+def toUnitlessFlat (l : List (PyVal α)) (newUnit : PyVal α) : Except Err (List α) :=
+  match l with
+  | [] => .ok []
+  | v :: r => match toUnitlessScalar v newUnit with
+    | .error e => .error e
+    | .ok x => match toUnitlessFlat r newUnit with
+      | .error e => .error e
+      | .ok xs => .ok (x :: xs)
+
+/-- `is_unitless` on a scalar (units.py 302-306): no `dimensionality` attribute → True; otherwise the
+    (simplified) dimensionality is the dimensionless one -/
+def isUnitlessScalar : PyVal α → Bool
+  | .num _ => true
+  | .qty q => q.unit.dims = Dims.zero
+
+/-- nested Python containers of scalars (list/tuple/object array, dict, str) and plain numeric arrays -/
 inductive Val (α : Type)
   | atom (a : PyVal α)
   | str
   | list (l : List (Val α))
   | dict (l : List (String × Val α))
+  | ndarray (xs : List α)            -- a plain numeric `np.ndarray` (no units, dtype float)
 
 /-- result of `to_unitless`: numbers in the same container shape (ndarray for list/tuple) -/
 inductive Res (α : Type)
@@ -241,7 +258,7 @@ inductive Res (α : Type)
 mutual
 /-- `to_unitless(value, new_unit)` (units.py 349-404); `newUnit` already has `None` replaced by `pq.dimensionless`
     (line 366-367).  list/tuple: element-wise in order (369-370); dict: value-wise in key order (375-379);
-    str: ValueError (384-385); scalar: `toUnitlessScalar`.  A Quantity *array* behaves as the list of its
+    str: ValueError (384-385); plain ndarray: shortcut or element-wise (371-374); scalar: `toUnitlessScalar`.  A Quantity *array* behaves as the list of its
     elements (one common unit).  The first failing element decides the exception. -/
 def toUnitless (v : Val α) (newUnit : PyVal α) : Except Err (Res α) :=
   match v with
@@ -249,6 +266,14 @@ def toUnitless (v : Val α) (newUnit : PyVal α) : Except Err (Res α) :=
     | .ok x => .ok (.num x)
     | .error e => .error e
   | .str => .error .valueError
+  | .ndarray xs =>
+    -- units.py 371-374: `if is_unitless(new_unit) and new_unit == 1 and value.dtype != object: return value`.
+    -- NOTE `new_unit == 1` compares the bare magnitude: True for EVERY dimensionless unit of magnitude 1 (km/m, cm/m, …),
+    -- whose scale factor is then ignored.  Otherwise element-wise.
+    if isUnitlessScalar newUnit && newUnit.eqOne then .ok (.list (xs.map .num))
+    else match toUnitlessFlat (xs.map .num) newUnit with
+      | .ok ys => .ok (.list (ys.map .num))
+      | .error e => .error e
   | .list l => match toUnitlessList l newUnit with
     | .ok r => .ok (.list r)
     | .error e => .error e
@@ -277,27 +302,12 @@ end
 def toUnitlessOpt (v : Val α) (newUnit : Option (PyVal α)) : Except Err (Res α) :=
   toUnitless v (newUnit.getD (.qty Quantity.dimensionless))
 
-/-- element-wise `to_unitless` of a flat list of scalars -/
-def toUnitlessFlat (l : List (PyVal α)) (newUnit : PyVal α) : Except Err (List α) :=
-  match l with
-  | [] => .ok []
-  | v :: r => match toUnitlessScalar v newUnit with
-    | .error e => .error e
-    | .ok x => match toUnitlessFlat r newUnit with
-      | .error e => .error e
-      | .ok xs => .ok (x :: xs)
-
-/-- `is_unitless` on a scalar (units.py 302-306): no `dimensionality` attribute → True; otherwise the
-    (simplified) dimensionality is the dimensionless one -/
-def isUnitlessScalar : PyVal α → Bool
-  | .num _ => true
-  | .qty q => q.unit.dims = Dims.zero
-
 mutual
 /-- `is_unitless(expr)` (units.py 291-311): dict → all values, list/tuple → all elements, anything else True -/
 def isUnitless : Val α → Bool
   | .atom a => isUnitlessScalar a
   | .str => true
+  | .ndarray _ => true
   | .list l => isUnitlessList l
   | .dict d => isUnitlessDict d
 def isUnitlessList : List (Val α) → Bool
@@ -448,9 +458,10 @@ def getDerivedUnit (reg : Option (Registry α)) (key : String) : Except Err (PyV
 
 /-! ### registry ↔ human readable (units.py 208-223, 269-285) -/
 
-/-- a `quantities` unit object as it appears in an unsimplified dimensionality: its `u_symbol` and value -/
+/-- a `quantities` unit object as it appears in an unsimplified dimensionality: its plain `symbol` (ASCII, e.g. 'um';
+    the name when no symbol was given) and its value.  The unicode `u_symbol` ('µm') is no longer used by chempy. -/
 structure SymUnit (α : Type) where
-  uSymbol : String
+  symbol : String
   unit : Unit α
   deriving DecidableEq, Repr
 
@@ -461,18 +472,18 @@ inductive RegEntry (α : Type)
   | q (mag : α) (dimy : List (SymUnit α × Int))
   deriving DecidableEq, Repr
 
-/-- an entry of the serialised registry: `(1, 1)` or `(float(unit), u_symbol)` -/
+/-- an entry of the serialised registry: `(1, 1)` or `(float(unit), symbol)` -/
 inductive HumanEntry (α : Type)
   | one
-  | fs (factor : α) (uSymbol : String)
+  | fs (factor : α) (symbol : String)
   deriving DecidableEq, Repr
 
-/-- loop body of `unit_registry_to_human_readable` (units.py 215-222).  NOTE: only the NUMBER of distinct unit
+/-- loop body of `unit_registry_to_human_readable` (units.py 215-223, after the fix that stores `.symbol`).  NOTE: only the NUMBER of distinct unit
     objects is checked; the exponent of a single one is dropped silently. -/
 def toHumanEntry : RegEntry α → Except Err (HumanEntry α)
   | .num x => if x = ((1 : Nat) : α) then .ok .one else .error .attributeError   -- `x.dimensionality`
   | .q mag dimy => match dimy with
-    | [(u, _)] => .ok (.fs mag u.uSymbol)
+    | [(u, _)] => .ok (.fs mag u.symbol)            -- `dim_list[0].symbol`
     | _ => .error .typeError               -- "Compound units not allowed"
 
 def toHuman : List (RegEntry α) → Except Err (List (HumanEntry α))
@@ -484,7 +495,7 @@ def toHuman : List (RegEntry α) → Except Err (List (HumanEntry α))
       | .ok hs => .ok (h :: hs)
 
 /-- loop body of `unit_registry_from_human_readable` (units.py 275-284).  `lookup` models
-    `pq.Quantity(0, u_symbol).dimensionality` (the third-party unit-string parser): `none` = LookupError. -/
+    `pq.Quantity(0, symbol).dimensionality` (the third-party unit-string parser): `none` = LookupError. -/
 def fromHumanEntry (lookup : String → Option (List (SymUnit α × Int))) : HumanEntry α → Except Err (RegEntry α)
   | .one => .ok (.num (((1 : Nat) : α) * ((1 : Nat) : α)))           -- factor * 1
   | .fs factor sym => match lookup sym with
